@@ -525,6 +525,58 @@ def replay_text(chk, h, consts):
     chk.violation(f'text:avg-alphabetical-char-count:exception:{type(e).__name__}', f'[texts={texts}] {e!r}', ctx)
 
 
+def replay_thresholded(chk, h, scale):
+  """Thresholded.tla: precision / recall / f1 per threshold and metric@threshold, thresholds configured in any order, examples fed in
+  one batch, one by one (an example without relevant items is a batch of its own then) and through merge."""
+  import numpy as np
+  from ml_metrics._src.aggregates import retrieval
+  names = 'abcdefg'
+  exs = [([names[x - 1] for x in sorted(e['rel'])], [names[x - 1] for x in e['rank']], [p / scale for p in e['prob']]) for e in h['stream']]
+  at = h['at'].values() if isinstance(h['at'], dict) else h['at']
+  rows = sorted((r[0] / scale, r[1], r[2], r[3]) for r in at)
+  ths = [r[0] for r in rows]
+  div = lambda a, b: a / b if b else 0.0
+  want_p = [div(r[2], r[3]) for r in rows]
+  want_r = [div(r[1], h['ptrue']) for r in rows]
+  want_f = [div(2 * p * q, p + q) for p, q in zip(want_p, want_r)]
+  ctx = dict(kind='thresholded-retrieval', stream=h['stream'])
+  orders = [('ascending', ths), ('descending', ths[::-1]), ('rotated', ths[1:] + ths[:1])]
+  at_metrics = [f'precision@{ths[-1]}', f'recall@{ths[0]}', f'f1_score@{ths[len(ths) // 2]}']
+  want_at = [want_p[-1], want_r[0], want_f[len(ths) // 2]]
+  for oname, order in orders:
+    for how in ('one-batch', 'per-example', 'merge'):
+      desc = f'examples (y_true, y_pred, y_prob)={exs} thresholds={order} {how}'
+      try:
+        mk = lambda: retrieval.ThresholdedRetrieval(thresholds=tuple(order), metrics=['precision', 'recall', 'f1_score'] + at_metrics)
+        acc = mk()
+        batches = [exs] if how == 'one-batch' else [[e] for e in exs]
+        for b in batches:
+          args = ([e[0] for e in b], [e[1] for e in b], [e[2] for e in b])
+          if how == 'merge':
+            o = mk()
+            o.add(*args)
+            acc.merge(o)
+          else:
+            acc.add(*args)
+        res = acc.result()
+      except Exception as e:  # pylint: disable=broad-exception-caught
+        chk.violation(f'thresholded:exception:{type(e).__name__}', f'[{desc}] {e!r}', ctx)
+        return
+      got_t = [float(x) for x in np.asarray(res['thresholds']).reshape(-1)]
+      vals = {k: np.asarray(v, dtype=float).reshape(-1).tolist() for k, v in res.items() if k != 'thresholds'}
+      if not all(close(a, b) for a, b in zip(got_t, ths)) or len(got_t) != len(ths):
+        chk.violation('thresholded:thresholds', f'[{desc}] reported thresholds {got_t}, ascending {ths}', ctx)
+        return
+      for nm, want in (('precision', want_p), ('recall', want_r), ('f1_score', want_f)):
+        if len(vals[nm]) != len(want) or not all(close(a, b) for a, b in zip(vals[nm], want)):
+          chk.violation(f'thresholded:{nm}:{oname}:{how}', f'[{desc}] {nm} = {vals[nm]}, definition gives {want} at {ths}', ctx)
+          return
+      for nm, want in zip(at_metrics, want_at):
+        if not close(vals[nm][0], want):
+          chk.violation(f'thresholded:at-threshold:{oname}', f'[{desc}] {nm} = {vals[nm][0]}, definition gives {want}', ctx)
+          return
+
+
 def replay_signals(chk, h):
   import numpy as np
   from ml_metrics._src.signals import flip_masks, topk_accuracy
@@ -691,6 +743,26 @@ def body(chk):
     replay_text(chk, h, tc)
     chk.replayed()
   chk.count('text_sets', len(hs))
+  # 3d. thresholded retrieval
+  hc = dict(Vocab={1, 2}, Scores={1, 2, 3}, Thr={0, 2, 3}, MaxExamples=2, MaxRank=2)
+  hlaws = ['SameHits', 'Bounded', 'Monotone', 'FalsePositivesCount']
+  mc = tlc.run('algebra', 'Thresholded', tlc.cfg_text(constants=hc, invariants=hlaws, deadlock=False), timeout=1800)
+  chk.add_tlc(mc, 'Thresholded/MC')
+  if not mc.ok:
+    chk.machinery_failure(f'Thresholded.tla violates {mc.error_name}')
+  gen = tlc.run('algebra', 'Thresholded', tlc.cfg_text(constants=hc, invariants=['Emit'], deadlock=False), workers=1, timeout=1800)
+  if not gen.ok:
+    chk.machinery_failure(f'Thresholded export failed: {gen.error_name}')
+  hs = list(gen.histories)
+  sim = tlc.run('algebra', 'Thresholded', tlc.cfg_text(constants=dict(hc, Vocab={1, 2, 3}, MaxExamples=4, MaxRank=3), invariants=['Emit'], deadlock=False),
+                workers=1, simulate=f'num={400 if thorough else 60}', depth=5, seed=chk.seed + 7, timeout=1800)
+  hs += sim.histories
+  if not thorough:
+    hs = rnd.sample(hs, min(len(hs), 500))
+  for h in hs:
+    replay_thresholded(chk, h, 4)
+    chk.replayed()
+  chk.count('thresholded_streams', len(hs))
   # 4. per-example signals
   gc = dict(NClasses=3, MaxScore=4, Thresholds={0, 2, 4})
   glaws = ['TopkMonotone', 'TopkAllAtN', 'TopkExactlyK', 'FlipPartition']
